@@ -386,13 +386,11 @@ template <int N, int KIND, bool ASSUMED> static void leaf_step() {
         if (cfg_alg == 3) VWITNESS("ps"); if (cfg_alg == 4) VWITNESS("psw"); if (cfg_alg == 5) VWITNESS("pss");
     }
 }
-// several clause lengths per entry: one CBMC start-up instead of one per length
-extern "C" void h_leaf_orig() {
-    leaf_step<1, 0, false>(); leaf_step<2, 0, false>();
+// two clause lengths in one entry: one CBMC start-up instead of one per length
+extern "C" void h_leaf_orig_12() { leaf_step<1, 0, false>(); leaf_step<2, 0, false>(); }
 #if NV >= 3
-    leaf_step<3, 0, false>();
+extern "C" void h_leaf_orig_3() { leaf_step<3, 0, false>(); }
 #endif
-}
 #if NV >= 4
 extern "C" void h_leaf_orig_4() { leaf_step<4, 0, false>(); }
 #endif
